@@ -142,8 +142,9 @@ def build_harness(feat="default", profile="release"):
 def build_driver():
     """Extract the models and compile the OCaml driver (cached on the hash of model + driver sources)."""
     d = os.path.join(BUILD, "extract"); os.makedirs(d, exist_ok=True)
-    srcs = glob.glob(os.path.join(V, "theories", "Model", "*.v")) + glob.glob(os.path.join(V, "theories", "Gen", "*.v")) + \
-           [os.path.join(V, "theories", "Extract.v"), os.path.join(V, "theories", "Base.v")] + glob.glob(os.path.join(V, "driver", "*.ml"))
+    # hash the *compiled* models (so a stale .vo can never be stamped as current) plus the driver sources
+    srcs = glob.glob(os.path.join(V, "theories", "Model", "*.vo")) + glob.glob(os.path.join(V, "theories", "Gen", "*.vo")) + \
+           [os.path.join(V, "theories", "Extract.v"), os.path.join(V, "theories", "Base.vo")] + glob.glob(os.path.join(V, "driver", "*.ml"))
     hsh = file_hash(srcs)
     stamp = os.path.join(d, "stamp")
     if os.path.exists(stamp) and open(stamp).read() == hsh and os.path.exists(os.path.join(d, "driver")):
@@ -151,7 +152,7 @@ def build_driver():
     rc, out = sh("coqc -Q ../../theories RV ../../theories/Extract.v", 600, cwd=d)
     if rc != 0: return rc, out
     for f in glob.glob(os.path.join(V, "driver", "*.ml")): shutil.copy(f, d)
-    rc, out = sh("ocamlfind ocamlopt -O2 -w -a model.mli model.ml conv.ml driver.ml -o driver", 600, cwd=d)
+    rc, out = sh("ocamlfind ocamlopt -O2 -w -a model.mli model.ml conv.ml apidrv.ml driver.ml -o driver", 600, cwd=d)
     if rc == 0: open(stamp, "w").write(hsh)
     return rc, out
 
@@ -174,6 +175,23 @@ def run_exec_shards(seed, shards, npat, nhay, budget, corpus=None, feat="default
         return sh("set -o pipefail; " + c, timeout)
     with concurrent.futures.ThreadPoolExecutor(max_workers=NCPU) as ex:
         for rc, out in ex.map(one, cmds):
+            got = False
+            for line in out.split("\n"):
+                if line.startswith("SUMMARY"):
+                    got = True
+                    for k, v in parse_kv(line).items(): summary[k] = summary.get(k, 0) + int(v)
+                elif line.startswith("MISMATCH"): mism.append(line)
+                elif line.startswith("PROPVIOL"): pv.append(line)
+            if rc != 0 or not got: errs.append("pipeline rc=%d: %s" % (rc, out[-300:]))
+    return summary, mism, pv, errs
+
+def run_stream_shards(sub, drvmode, seed, shards, n, extra="", feat="default", timeout=1500):
+    """Generic: `rvharness <sub> <seed> <n> <extra> | driver <drvmode>` in parallel shards."""
+    hb, db = harness_bin(feat), os.path.join(BUILD, "extract", "driver")
+    cmds = ["set -o pipefail; %s %s %d %d %s | %s %s" % (hb, sub, seed * 1000 + k, n, extra, db, drvmode) for k in range(shards)]
+    summary, mism, pv, errs = {}, [], [], []
+    with concurrent.futures.ThreadPoolExecutor(max_workers=NCPU) as ex:
+        for rc, out in ex.map(lambda c: sh(c, timeout), cmds):
             got = False
             for line in out.split("\n"):
                 if line.startswith("SUMMARY"):
